@@ -33,6 +33,7 @@
 #include <tbox/base/log.h>
 #include <tbox/base/cabinet.hpp>
 #include <tbox/base/assert.h>
+#include <tbox/base/verif_point.h>
 #include <tbox/base/catch_throw.h>
 #include <tbox/base/object_pool.hpp>
 #include <tbox/base/wrapped_recorder.h>
@@ -175,6 +176,7 @@ ThreadPool::TaskToken ThreadPool::execute(NonReturnFunc &&backend_task, NonRetur
     }
 
     LogDbg("create task %u", token.id());
+    TBOX_VERIF_POINT("ThreadPool.execute_before_notify");
     d_->cond_var.notify_one();
 
     return token;
@@ -260,6 +262,7 @@ void ThreadPool::cleanup()
         d_->threads_cabinet.clear();
     }
 
+    TBOX_VERIF_POINT("ThreadPool.cleanup_before_stop_flag");
     d_->all_threads_stop_flag = true;
     d_->cond_var.notify_all();
 
@@ -327,6 +330,7 @@ void ThreadPool::threadProc(ThreadToken thread_token)
             item = popOneTask();    //! 从任务队列中取出优先级最高的任务
         }
 
+        TBOX_VERIF_POINT("ThreadPool.after_pop");
         //! 后面就是去执行任务，不需要再加锁了
         if (item != nullptr) {
             RECORD_SCOPE();
@@ -346,6 +350,7 @@ void ThreadPool::threadProc(ThreadToken thread_token)
             }
 
             auto exec_time_cost = Clock::now() - exec_time_point;
+            TBOX_VERIF_POINT("ThreadPool.after_task");
 
             LogDbg("thread %u finish task %u, cost %" PRIu64 " + %" PRIu64 " us",
                    thread_token.id(), item->token.id(),
